@@ -92,6 +92,7 @@ def ins_corpus(tier, seed):
 def main(tier: str) -> int:
     seed = seed_from_env()
     return run_property(PROP, tier, corpus(tier, seed), sig_of=sig_of, capit=2, ins_specs=ins_corpus(tier, seed),
+                        scripted=True,
                         note="Every iteration logs the condition compared with the tolerance; an iteration event is "
                              "only legal while the previous condition exceeded the tolerance, finalise only when it no "
                              "longer does; after Done the run is run again in-process and resumed from the final "
